@@ -114,7 +114,12 @@ def count_line(item):
     except Exception as e:
         return 'CRASH-INIT ' + type(e).__name__
     if outcome != 'OK':
-        return outcome
+        # the record written before the exception is still an observation: other properties are judged on it
+        try:
+            part = canonical_line(E, snaps)
+            return outcome + ('\t' + part if len(part) > 3 else '')
+        except Exception:
+            return outcome
     try:
         line = canonical_line(E, snaps)
     except Exception as e:
